@@ -67,6 +67,8 @@ add("mw_eq3_g", ["C06"], "t", progs=[P("L", mwt(1), "U"), P("G1", "L", mwt(3), "
 add("mw_3c_g", ["C06"], "t", progs=[P("L", mwt(1), "U"), P("G1", "L", mwt(2), "U"), P("G2", "L", mwt(3), "U"), P("G3", "L", "set21", "U", "L", "set11", "U")], NV=2, conds=CS)
 # two writer-mode waiters with different conditions made true by one critical section; the first one woken leaves with unlock_without_wakeup
 add("mw_uw2_g", ["C06"], "q", progs=[P("L", mwt(1), "UW"), P("G1", "L", mwt(3), "U"), P("G2", "L", "set11", "set21", "U")], NV=2, conds=CS)
+# (too large for breadth-first search: behaviours from TLC's simulation mode, 4 workers x 150)
+add("mw_hint4_g", ["C06"], "t", progs=[P("L", mwt(1), "U"), P("G1", "L", "U"), P("G1", "R", "RU"), P("G1", "L", "set11", mwt(3), "U")], NV=2, conds=CS, _sim=(150, 600))
 add("mw_rdall_g", ["C06"], "q", progs=[P("L", mwt(1), "U"), P("G1", "R", "RU", "R", "RU"), P("G1", "L", "set11", "U")], NV=1, conds=C1)
 # ---- nsync_wait_n on a cv (C04 C11 C13) ----
 add("wn_in", ["C04", "C11", "C13"], "q", progs=[P("L", wnl(v=1, dl=1), "U"), P("L", "set11", "S", "U")], NV=1, MaxNow=1)
@@ -128,7 +130,10 @@ RANDOM = {
             dict(progs=[P("L", mwt(1), "U"), P("G1", "L", mwt(3), "U"), P("G2", "L", mwt(4), "U"), P("G3", "L", "set21", "U")], NV=2, conds=CS),
             dict(progs=[P("L", mwt(3), "U"), P("G1", "L", mwt(1), "U"), P("G2", "R", mwt(4), "RU"), P("G3", "L", "set11", "U")], NV=2, conds=CS),
             dict(progs=[P("L", mwt(1), "U"), P("L", mwt(2, dl=1), "U"), P("R", mwt(3), "RU"), P("L", "set11", "U", "L", "set21", "U")], NV=2, conds=CS),
-            dict(progs=[P("L", mwt(4), "U"), P("R", mwt(1), "RU"), P("L", cvl(v=1), "U"), P("L", "UW", "L", "set11", "B", "U")], NV=1, conds=CS)],
+            dict(progs=[P("L", mwt(4), "U"), P("R", mwt(1), "RU"), P("L", cvl(v=1), "U"), P("L", "UW", "L", "set11", "B", "U")], NV=1, conds=CS),
+            # a conditional waiter; a writer with a reader queued behind it; a barging writer that makes the first condition true and then
+            # waits itself on a condition that stays false (it legitimately sleeps for ever); the reader's unlock must find the first waiter
+            dict(progs=[P("L", mwt(1), "U"), P("G1", "L", "U"), P("G1", "R", "RU"), P("G1", "L", "set11", mwt(3), "U")], NV=2, conds=CS)],
     "C11": [dict(progs=[P("L", cvl(v=1), "U"), P("L", wnl(v=1, dl=1), "U"), P("G2", "L", "set11", "U", "B")], NV=1, MaxNow=1),
             dict(progs=[P("L", wnl(v=1), "U"), P("L", wnl(v=1, dl=1), "U"), P("G1", "L", "set11", "U", "S", "S")], NV=1, MaxNow=1),
             dict(progs=[P("L", wnl(v=1, dl=2), "U"), P("L", cvl(v=1, dl=1), "U"), P("L", "set11", "S", "U", "B"), P("L", "U")], NV=1, MaxNow=2)],
